@@ -340,3 +340,229 @@ def compare_fault_tolerant(hist, it, mt):
                                     impl=la or "<missing>", model=lb or "<missing>")
                 break
     return diverged, events
+
+
+# ----------------------------------------------------------------------------- contents oracle (C03 / C07 / C11 / C12 ...)
+def _parse_list(body):
+    return [parse_elem(x) for x in body.split(",") if x]
+
+
+class ContentOracle(Oracle):
+    """one-step refinement check on the implementation's own trace: from the
+    contents printed before an operation and the operation itself, what must
+    the contents and the returned value be afterwards?  (item -> priority map
+    semantics, payload = the part of the item outside Eq/Hash.)  Choices the
+    specification leaves open (which of several equal extremes, which strategy
+    extend takes) are resolved by what the implementation did and then checked
+    to be allowed."""
+
+    def __init__(self, want):
+        Oracle.__init__(self, want)
+
+    def step(self, op, line):
+        before = dict(self.prev)
+        why = Oracle.step(self, op, line)   # updates self.prev / self.unordered
+        if why:
+            return why
+        out, ticks, regs = split_line(line)
+        toks = op.split()
+        if toks[0] == "fuse" or out in ("invalid", "unwound") or out.startswith("fault"):
+            return None
+        try:
+            return self.check(toks, out, before, regs)
+        except (IndexError, ValueError, KeyError):
+            return None
+
+    @staticmethod
+    def ents(regs, r):
+        return list(regs[r][1]) if r in regs else None
+
+    def check(self, t, out, before, after):
+        name = t[0]
+        if name in ("new", "withcap", "fromvec", "fromiter", "deser"):
+            r = int(t[2])
+            got = self.ents(after, r)
+            if name in ("new", "withcap"):
+                return None if got == [] else "%s left contents %s" % (name, got)
+            n = int(t[3]) if name != "fromiter" else int(t[5])
+            base = 4 if name != "fromiter" else 6
+            l = [(int(t[base + 3 * i]), int(t[base + 3 * i + 1]), int(t[base + 3 * i + 2])) for i in range(n)]
+            exp = {}
+            for k, pl, p in l:
+                if name == "fromvec":
+                    exp.setdefault(k, (pl, p))
+                elif name == "fromiter":
+                    exp[k] = (pl, p)
+                else:  # deser: first item, last priority
+                    exp[k] = (exp[k][0] if k in exp else pl, p)
+            return self.same(got, exp, "%s" % name)
+        r = int(t[1])
+        b = self.ents(before, r)
+        a = self.ents(after, r)
+        if b is None or a is None:
+            return None
+        bm = {k: (pl, p) for k, pl, p in b}
+        unordered = r in self.unordered
+
+        def ext(side):
+            ps = [p for (_, p) in bm.values()]
+            return (max(ps) if side == "max" else min(ps)) if ps else None
+
+        if name in ("push", "pushinc", "pushdec"):
+            k, pl, p = int(t[2]), int(t[3]), int(t[4])
+            exp = dict(bm)
+            if k not in bm:
+                exp[k] = (pl, p)
+                want = "optp -"
+            else:
+                opl, op_ = bm[k]
+                do = name == "push" or (name == "pushinc" and p > op_) or (name == "pushdec" and p < op_)
+                if do:
+                    exp[k] = (opl, p)
+                    want = "optp %d" % op_
+                else:
+                    want = "optp %d" % p
+            if out != want:
+                return "%s returned %r, the map semantics gives %r" % (name, out, want)
+            return self.same(a, exp, name)
+        if name in ("chg", "chgby", "chgadd"):
+            k, v = int(t[2]), int(t[3])
+            exp = dict(bm)
+            if k in bm:
+                opl, op_ = bm[k]
+                exp[k] = (opl, op_ + v if name == "chgadd" else v)
+                want = ("optp %d" % op_) if name == "chg" else "bool 1"
+            else:
+                want = "optp -" if name == "chg" else "bool 0"
+            if out != want:
+                return "%s returned %r, expected %r" % (name, out, want)
+            return self.same(a, exp, name)
+        if name == "remove":
+            k = int(t[2])
+            exp = dict(bm)
+            want = "opte -"
+            if k in bm:
+                want = "opte %d:%d:%d" % ((k,) + bm[k])
+                del exp[k]
+            if out != want:
+                return "remove returned %r, expected %r" % (out, want)
+            return self.same(a, exp, name)
+        if name in ("get", "getprio", "getmut"):
+            k = int(t[2])
+            exp = dict(bm)
+            if name == "getmut" and k in bm:
+                exp[k] = (int(t[3]), bm[k][1])
+            if k in bm:
+                pl, p = exp[k]
+                want = ("optp %d" % p) if name == "getprio" else "opte %d:%d:%d" % (k, pl, p)
+            else:
+                want = "optp -" if name == "getprio" else "opte -"
+            if out != want:
+                return "%s returned %r, expected %r" % (name, out, want)
+            return self.same(a, exp, name)
+        if name == "len":
+            return None if out == "nat %d" % len(bm) else "len returned %r for %d items" % (out, len(bm))
+        if name == "isempty":
+            return None if out == "bool %d" % (0 if bm else 1) else "is_empty wrong"
+        if name in ("pop", "peekmut", "popif") and not unordered:
+            side = t[2]
+            e = parse_elem(out.split()[1]) if out.startswith("opte") else None
+            x = ext(side)
+            exp = dict(bm)
+            if name == "pop":
+                if x is None:
+                    return None if e is None else "pop on empty returned %r" % out
+                if e is None or e[0] not in bm or bm[e[0]] != (e[1], e[2]) or e[2] != x:
+                    return "pop %s returned %r which is not a stored %s" % (side, out, side)
+                del exp[e[0]]
+                return self.same(a, exp, name)
+            if name == "peekmut":
+                npl = int(t[3])
+                if x is None:
+                    return None if e is None else "peek_mut on empty returned %r" % out
+                if e is None or e[0] not in bm or bm[e[0]][1] != x or e[2] != x or e[1] != npl:
+                    return "peek_%s_mut returned %r, not a stored %s with the written payload" % (side, out, side)
+                exp[e[0]] = (npl, x)
+                return self.same(a, exp, name)
+            if name == "popif":
+                w, pl, bb = t[3], t[4], t[5] == "1"
+                if x is None:
+                    return None if e is None else "pop_if on empty returned %r" % out
+                cands = [k for k, (_, p) in bm.items() if p == x]
+                for k in cands:
+                    opl, op_ = bm[k]
+                    wr = (int(pl) if pl != "-" else opl, int(w) if w != "-" else op_)
+                    exp = dict(bm)
+                    if bb:
+                        del exp[k]
+                        ok = e == (k,) + wr
+                    else:
+                        exp[k] = wr
+                        ok = e is None
+                    if ok and self.same(a, exp, name) is None:
+                        return None
+                return "pop_if %s: no stored %s element explains the result %r and the new contents" % (side, side, out)
+        if name in ("retain", "retainmut"):
+            d = t[2] == "1"
+            n = int(t[3])
+            tbl = {}
+            for i in range(n):
+                if name == "retain":
+                    tbl.setdefault(int(t[4 + 2 * i]), (None, t[5 + 2 * i] == "1"))  # first entry wins
+                else:
+                    wv = t[5 + 3 * i]
+                    tbl.setdefault(int(t[4 + 3 * i]), (None if wv == "-" else int(wv), t[6 + 3 * i] == "1"))
+            exp = {}
+            for k, (pl, p) in bm.items():
+                wv, keep = tbl.get(k, (None, d))
+                if keep:
+                    exp[k] = (pl, p if wv is None else wv)
+            return self.same(a, exp, name)
+        if name == "extend":
+            n = int(t[4])
+            l = [(int(t[5 + 3 * i]), int(t[6 + 3 * i]), int(t[7 + 3 * i])) for i in range(n)]
+            exp = {k: p for k, (pl, p) in bm.items()}
+            for k, pl, p in l:
+                exp[k] = p
+            got = {k: p for k, pl, p in a}
+            if got != exp or len(a) != len(got):
+                return "extend: item -> priority map is %s, expected %s" % (sorted(got.items()), sorted(exp.items()))
+            return None
+        if name == "append":
+            s2 = int(t[2])
+            o = self.ents(before, s2)
+            if o is None or before[r][0] != before.get(s2, (None,))[0]:
+                return None
+            om = {k: (pl, p) for k, pl, p in o}
+            first, second = (om, bm) if len(om) > len(bm) else (bm, om)
+            exp = dict(second)
+            exp.update(first)
+            w = self.same(a, exp, name)
+            if w:
+                return w
+            return None if self.ents(after, s2) == [] else "append left the other queue non-empty"
+        if name in ("clear", "drain"):
+            return None if a == [] else "%s left %d elements" % (name, len(a))
+        if name in ("peek", "iter", "intoiter", "sortediter", "sortedvec", "intovec", "eq", "clone",
+                    "reserve", "reservex", "tryreserve", "tryreservex", "shrink", "capacity", "convert", "serde"):
+            if name == "serde":
+                return None
+            return self.same(a, bm, name)
+        return None
+
+    @staticmethod
+    def same(got, exp, name):
+        gm = {k: (pl, p) for k, pl, p in got}
+        if len(gm) != len(got):
+            return "after %s an item is stored twice" % name
+        if gm != exp:
+            diff = sorted(set(gm.items()) ^ set(exp.items()))[:4]
+            return "after %s the contents differ from the item -> (payload, priority) map semantics: %s" % (name, diff)
+        return None
+
+
+for _p, _w in (("C03", ("fault", "wf")), ("C07", ("fault", "wf", "order")), ("C11", ("fault", "wf", "order")),
+               ("C12", ("fault", "wf")), ("C08", ("fault", "wf", "order", "extreme")), ("C14", ("fault", "wf")),
+               ("C15", ("fault", "wf", "order")), ("C16", ("fault", "wf")), ("C17", ("fault", "wf", "cap")),
+               ("C18", ("fault", "wf"))):
+    ORACLES[_p] = ContentOracle(_w)
